@@ -51,14 +51,8 @@ def _tables(run: Run, model: PyModel) -> None:
     kinds = _note_type_values(model)
     from ..flatten import flat_info
 
-    fa = flat_info(model, F_ADD)
-    tup = [_lits(fa, c.args[0]) for c in find_calls(fa.node, "startswith") if c.args and _lits(fa, c.args[0])]
-    if not tup:
-        run.undecided("C10.R3", "add_note", "cannot find the item-prefix tuple")
-    else:
-        run.check("C10.R3", "add_note item prefixes == {kind + ' '}", set(tup[0]) == {k + " " for k in kinds}, "FileManager.add_note", f"prefixes {sorted(tup[0])}",
-                  f"add_note recognises item prefixes {sorted(tup[0])}, expected {sorted(k + ' ' for k in kinds)}: notes of a missing kind are not seen and the moved note is inserted in the wrong place",
-                  file=FILE_M, node=fa.node)
+    # (which lines add_note takes for items only decides WHERE in the destination the note lands, never whether a line is lost: the old comparison of its
+    #  prefix tuple with the NoteType values demanded more than the property states and was removed; every kind as the destination's last block is a move scenario)
     # tag sigils: grammar
     g = ParserGrammar(run.repo, FILE_PARSER)
     gram = {}
@@ -139,50 +133,45 @@ def _lexer_literal(run: Run, token_name: str):
 def _order_and_errors(run: Run, model: PyModel) -> None:
     eff = Effects(model)
     fm = model.func(F_MOVE)
+    # order and failures, by abstract runs of _move_note (whatever shape its steps have: statements, a table of steps, helpers)
+    ZID = "240101#A2"
+    note = dict(zid=ZID, body=f"{ZID} moved text\n  more", page="src.zo", line_no=2, status=None)
+    src = ["# S", f"- {ZID} moved text", "  more", "- 240101#A3 stays", ""]
+    dst = ["# D", "", "- 240101#B1 existing", ""]
     n = 0
-    for p in enum_paths(fm.node):
-        a = first_index(p, lambda x: isinstance(x, ast.Call) and isinstance(x.func, ast.Attribute) and x.func.attr == "add_note")
-        d = first_index(p, lambda x: isinstance(x, ast.Call) and isinstance(x.func, ast.Attribute) and x.func.attr == "delete_note")
-        if d >= 0:
+
+    def runs(label, files, nt, target):
+        nonlocal n
+        try:
+            res = _move_run(model, files, nt, target, None, None, with_trace=True)
+        except Exception as e:  # noqa: BLE001
+            run.undecided("C10.R4", "_move_note", f"{label}: cannot interpret: {type(e).__name__}: {str(e)[:100]}")
+            return []
+        out = []
+        for v, written, imprecise, raised, trace in res:
             n += 1
-            run.check("C10.R4", "the note is added to the destination before it is deleted from the source", 0 <= a < d, "_move_note", "delete before add",
-                      "a path deletes the note from its source page before (or without) adding it to the destination: a failure in between loses the note", file=FILE_U, node=fm.node)
-        if p.outcome == "return":
-            ret = p.events[-1][1]
-            # error branches: an `if error := ...` assumed true must return non-zero
-            errs = [ev for ev in p.events if ev[0] == "assume" and ev[2] is True and isinstance(ev[1], ast.NamedExpr) and "error" in ev[1].target.id]
-            if errs:
-                v = ret.value
-                run.check("C10.R4", "a failed step yields a non-zero exit status", isinstance(v, ast.Constant) and v.value not in (0, None), "_move_note", ret,
-                          "a failed add/delete step does not produce a non-zero exit status", file=FILE_U, node=ret)
-    run.floor("paths of _move_note reaching delete_note", n, 1)
-    # typestate of the moved note: on every path, what add_note receives has passed through _add_hidden_metadata
-    n_add = 0
-    for p in enum_paths(fm.node):
-        decorated: set[str] = set()
-        for ev in p.events:
-            nodes = [ev[1]] if ev[0] in ("stmt", "assume", "return") else []
-            for top in nodes:
-                if isinstance(top, (ast.Assign, ast.AnnAssign)) and isinstance(top.targets[0] if isinstance(top, ast.Assign) else top.target, ast.Name) and top.value is not None:
-                    tgt = (top.targets[0] if isinstance(top, ast.Assign) else top.target).id
-                    v = top.value
-                    if isinstance(v, ast.Call) and ast.unparse(v.func).split(".")[-1] == "_add_hidden_metadata":
-                        decorated.add(tgt)
-                    elif isinstance(v, ast.Name):
-                        (decorated.add if v.id in decorated else decorated.discard)(tgt)
-                    elif isinstance(v, ast.Call) and v.args and isinstance(v.args[0], ast.Name) and ast.unparse(v.func).split(".")[-1] in ("_to_done_note", "replace"):
-                        (decorated.add if v.args[0].id in decorated else decorated.discard)(tgt)
-                    else:
-                        decorated.discard(tgt)
-                for c in ast.walk(top):
-                    if isinstance(c, ast.Call) and isinstance(c.func, ast.Attribute) and c.func.attr == "add_note" and c.args:
-                        n_add += 1
-                        a0 = c.args[0]
-                        ok = (isinstance(a0, ast.Name) and a0.id in decorated) or (isinstance(a0, ast.Call) and ast.unparse(a0.func).split(".")[-1] == "_add_hidden_metadata")
-                        run.check("C10.R5", "the note written to the destination carries its inherited metadata on every path", ok, "_move_note", c,
-                                  "a path reaches add_note with a note that did not pass through _add_hidden_metadata: the tags, links and properties the note inherited from its old page / "
-                                  "sections are not spelled out and are lost (or replaced by those of the place it lands in)", file=FILE_U, node=c, detail=dict(path=p.describe(14)))
-    run.floor("add_note sites on paths of _move_note", n_add, 1)
+            if raised or imprecise:
+                run.undecided("C10.R4", "_move_note", f"{label}: " + (f"raises {v.exc}" if raised else "; ".join(imprecise[:2])))
+                continue
+            out.append((v, written, trace))
+        return out
+
+    for v, written, trace in runs("to another page", {"src.zo": src, "dst.zo": dst}, note, "dst.zo"):
+        ws = [t[1] for t in trace if t[0] == "write_text"]
+        ok = "/Z/dst.zo" in ws and "/Z/src.zo" in ws and ws.index("/Z/dst.zo") < ws.index("/Z/src.zo")
+        run.check("C10.R4", "the note is added to the destination before it is deleted from the source", ok, "_move_note", f"order of page writes {ws}",
+                  f"a move to another page writes {ws}: the note is removed from its source page before (or without) being added to the destination - a failure in between loses the note",
+                  file=FILE_U, node=fm.node)
+    for v, written, trace in runs("to a page that does not exist and that no template creates", {"src.zo": src}, note, "nowhere.zo"):
+        ws = [t[1] for t in trace if t[0] == "write_text"]
+        run.check("C10.R4", "a failed add yields a non-zero exit status and leaves the source alone", v not in (0, None) and "/Z/src.zo" not in ws, "_move_note", f"missing destination: status {v!r}, writes {ws}",
+                  f"moving a note to a page that does not exist (and that no template creates) returns {v!r} after writing {ws}: expected a non-zero status with the source page untouched", file=FILE_U, node=fm.node)
+    gone = ["# S", "- 240101#A3 stays", f"- see {ZID}", ""]
+    for v, written, trace in runs("whose source page no longer holds it", {"src.zo": gone, "dst.zo": dst}, note, "dst.zo"):
+        got_src = written.get("/Z/src.zo", "\n".join(gone)).split("\n")
+        run.check("C10.R4", "a failed delete yields a non-zero exit status and removes nothing", v not in (0, None) and got_src == gone, "_move_note", f"note missing from its page: status {v!r}, source {got_src}",
+                  f"moving a note whose source page no longer contains it returns {v!r} and leaves the source as {got_src}: expected a non-zero status and an unchanged source page", file=FILE_U, node=fm.node)
+    run.floor("order / failure runs of _move_note", n, 3)
     # add_note / delete_note write the page themselves on every successful path
     from ..flatten import flat_info
 
@@ -238,7 +227,7 @@ def _hidden_anchor(run: Run, model: PyModel) -> None:
     run.undecided("C10.R5", "_add_hidden_metadata", "unrecognised way of splicing the metadata into the body")
 
 
-def _move_run(model: PyModel, files: dict, note: dict, target: str, done, template_text=None):
+def _move_run(model: PyModel, files: dict, note: dict, target: str, done, template_text=None, with_trace: bool = False):
     """One abstract run of _move_note over a virtual notes directory /Z holding `files` (name -> list of lines).  `note` = dict(zid, body, page, line_no, priority, status,
     projects, areas).  -> [(status value, {path: text written}, imprecise notes, raised)]."""
     from ..absint import Interp, Raised, State
@@ -281,7 +270,7 @@ def _move_run(model: PyModel, files: dict, note: dict, target: str, done, templa
     res = I.run_function(F_MOVE, [], kwargs, st=st)
     out = []
     for v, s in res:
-        out.append((v, dict(s.meta.get("vfiles", {})), list(s.imprecise), isinstance(v, Raised)))
+        out.append((v, dict(s.meta.get("vfiles", {})), list(s.imprecise), isinstance(v, Raised)) + ((list(s.trace),) if with_trace else ()))
     return out
 
 
@@ -390,9 +379,12 @@ def move_scenarios(run: Run, model: PyModel) -> None:
             lines = ["# S", f"- 240101#A0 {ZID} is only mentioned here", f"  {ZID} opens a continuation line", f"- {ZID}b has a longer ZID", f"o P1 240101#A9 240105 {ZID} after another ZID", first, f"- see {ZID}", ""]
             one(f"locating a {status} item{' with a modify date' if md else ''} among look-alikes", {"src.zo": lines, "dst.zo": d0},
                 dict(zid=ZID, body=f"{md}{ZID} the real one", page="src.zo", line_no=6, priority="P2", status=None if status == "BASIC" else status), "dst.zo", None, [first], rid_src="C10.R2")
+    for status, (ch, prio) in kinds.items():
+        one(f"destination whose last block is a {status} item under a section", {"src.zo": psrc, "dst.zo": ["# D", "", "- 240101#B0 first block", "", "######## S", "", f"{ch}{prio} 240101#B1 existing", "  cont", "", "######## T", ""]},
+            plain, "dst.zo", None, [f"- {ZID} moved text", "  more"])
     one("line separators and form feeds above the note in both pages", {"src.zo": ["# S", "pasted\u2028text", "form\x0cfeed\rcr", f"- {ZID} moved text", "  more", "- 240101#A3 stays", ""],
                                                                         "dst.zo": ["# D\u2028x", "\x0c", "- 240101#B1 existing", ""]}, dict(plain, line_no=4), "dst.zo", None, [f"- {ZID} moved text", "  more"])
-    run.floor("move scenarios", n, 28)
+    run.floor("move scenarios", n, 34)
 
 
 def check(run: Run) -> None:
@@ -400,8 +392,8 @@ def check(run: Run) -> None:
     run.rule("C10.R1", "conservation, by abstract runs of _move_note end to end over virtual pages (16 layouts: same page, missing destination, destinations ending in blank / item / header / nothing, free text or whitespace-only lines after the last item, source note first / last / with priority and date, look-alike neighbours, U+2028 / form feed): the source loses exactly the note's lines, the destination gains its rendering once, every other line is kept")
     run.rule("C10.R2", "anchored locator, by abstract runs of _move_note: an item of every kind (with and without priority / modify date) is found at its own-ZID position among lines that merely mention the ZID (in the text, after another ZID, in a continuation line, as the prefix of a longer ZID)")
     run.rule("C10.R3", "tables: item-prefix tuples == NoteType values + ' '; tag sigils of the hidden-metadata helpers agree with each other and with the grammar")
-    run.rule("C10.R4", "order and errors: add before delete; failures give a non-zero status; both file operations write the page themselves on success; _to_done_note only changes the payload")
-    run.rule("C10.R5", "inherited metadata is spliced in directly after the note's own ZID, and every path of _move_note passes the note through it before add_note")
+    run.rule("C10.R4", "order and errors, by abstract runs of _move_note: the destination is written before the source; a destination that cannot be written / a source that no longer holds the note give a non-zero status and remove nothing; both file operations write the page themselves on success; _to_done_note only changes the payload")
+    run.rule("C10.R5", "inherited metadata is spliced in directly after the note's own ZID; the destination's rendering carries it in every move scenario (plain, closing, cancelling, same page, new page)")
     run.rule("C10.R6", "the text that lands in the destination is Note.to_string(): the renderer obligations C12.R1-R3 (kind character, priority for every live todo kind, derivable piece sequence) are adopted")
     from . import c12
 
